@@ -87,3 +87,26 @@ def history(rng, cls, max_ops):
         else:
             ops.append(k)
     return 'vec %s %s %s' % (cls, init, ';'.join(ops) or '-')
+
+
+def stepped_history(rng, cls, max_ops):
+    """Histories with extended slices (a step other than 1, negative steps, step 0): not part of the Coq model's operation
+    language; the implementation is compared with the plain-list semantics and the size invariants only."""
+    n = rng.choice([0, 1, 2, 3, 5, 8, 12])
+    d = gen_tables.array_classes()[cls]
+    avg = sum(SIZES[cls]) / len(SIZES[cls])
+    n = max(n, int(d['min'] / avg) + rng.choice([0, 1, 2]))
+    init = rnd_items(rng, cls, n)
+    ops = []
+    for _ in range(rng.randint(1, max_ops)):
+        k = rng.choice(['dst', 'dst', 'sst', 'sst', 'app', 'pop'])
+        step = rng.choice(['2', '-1', '-2', '3', '_', '1', '0', '-3'])
+        if k == 'dst':
+            ops.append('dst/%s/%s/%s' % (rnd_opt(rng, n), rnd_opt(rng, n), step))
+        elif k == 'sst':
+            ops.append('sst/%s/%s/%s/%s' % (rnd_opt(rng, n), rnd_opt(rng, n), step, rnd_items(rng, cls, rng.choice([0, 1, 2, 3, (n + 1) // 2, n]))))
+        elif k == 'app':
+            ops.append('app/' + rnd_item(rng, cls))
+        else:
+            ops.append('pop/_')
+    return 'vec %s %s %s' % (cls, init, ';'.join(ops))
